@@ -19,6 +19,7 @@ type Obligation struct {
 	Cover  bool   // expectation is "sat" (vacuity / reachability cover)
 	Region string // known-finding region term (Bool); "" if none
 	Inputs []NamedTerm
+	Tag    int // block of the top function the obligation arises in (-1 entry, -2 merged exit)
 
 	// results
 	Status  string // discharged | failed | undecided | cover-ok | cover-fail
@@ -44,6 +45,7 @@ func (o *Obligation) goal() string {
 type item struct {
 	line string
 	obl  *Obligation
+	glob bool // a fact emitted once and valid everywhere (axiom instance, literal): never sliced away
 }
 
 type Emitter struct {
@@ -54,6 +56,32 @@ type Emitter struct {
 	inQuant  int
 	stores   map[string]*storeRec
 	defs     map[string]string
+	tagAt    []tagMark // items from index idx on were emitted while executing block tag of the top function
+	curTag   int
+	anc      map[int]map[int]bool // anc[b]: blocks of the top function from which b is reachable (b included)
+}
+
+type tagMark struct{ idx, tag int }
+
+// setTag records which block of the function under verification the
+// following items belong to (-1: entry facts that every block may use).
+func (e *Emitter) setTag(tag int) {
+	if tag == e.curTag && len(e.tagAt) > 0 {
+		return
+	}
+	e.curTag = tag
+	e.tagAt = append(e.tagAt, tagMark{len(e.items), tag})
+}
+
+func (e *Emitter) tagOf(i int) int {
+	t := -1
+	for _, m := range e.tagAt {
+		if m.idx > i {
+			break
+		}
+		t = m.tag
+	}
+	return t
 }
 
 // storeRec remembers that heap version name = store(prev, base, idx.., val),
@@ -66,7 +94,7 @@ type storeRec struct {
 }
 
 func newEmitter() *Emitter {
-	return &Emitter{declared: map[string]bool{}, stores: map[string]*storeRec{}, defs: map[string]string{}}
+	return &Emitter{declared: map[string]bool{}, stores: map[string]*storeRec{}, defs: map[string]string{}, curTag: -1}
 }
 
 func (e *Emitter) fresh(hint string) string {
@@ -104,7 +132,7 @@ func (e *Emitter) define(hint, sort, term string) string {
 	}
 	n := e.fresh(hint)
 	e.declare(n, sort)
-	e.items = append(e.items, item{line: fmt.Sprintf("(assert (= %s %s))", n, term)})
+	e.items = append(e.items, item{line: fmt.Sprintf("(assert (= %s %s))", n, term), glob: true})
 	e.defs[n] = term
 	return n
 }
@@ -120,6 +148,7 @@ func (e *Emitter) oblige(o *Obligation) {
 	if e.discard {
 		return
 	}
+	o.Tag = e.curTag
 	e.items = append(e.items, item{obl: o})
 }
 
@@ -177,17 +206,34 @@ func (e *Emitter) standalone(target *Obligation, mode string, withModel bool) st
 func (e *Emitter) standaloneAlt(target *Obligation, mode string, withModel bool, useAlt bool) string {
 	var b strings.Builder
 	b.WriteString(prelude)
-	for _, it := range e.items {
+	// slicing: an assertion made while executing a block from which the
+	// obligation's block cannot be reached says nothing about the paths that
+	// lead to the obligation (it is guarded by that block's reach condition or
+	// defines names only that block's successors use), so it is left out
+	var relevant map[int]bool
+	if e.anc != nil && target.Tag >= 0 {
+		relevant = e.anc[target.Tag]
+	}
+	marks := e.tagAt
+	mi, cur := 0, -1
+	for i, it := range e.items {
+		for mi < len(marks) && marks[mi].idx <= i {
+			cur = marks[mi].tag
+			mi++
+		}
+		keep := relevant == nil || cur < 0 || relevant[cur]
 		if it.obl == nil {
-			b.WriteString(it.line)
-			b.WriteByte('\n')
+			if keep || it.glob || strings.HasPrefix(it.line, "(declare") {
+				b.WriteString(it.line)
+				b.WriteByte('\n')
+			}
 			continue
 		}
 		o := it.obl
 		if o == target {
 			break
 		}
-		if !o.Cover {
+		if !o.Cover && keep {
 			fmt.Fprintf(&b, "(assert %s)\n", implies(o.Guard, o.Prop))
 		}
 	}
